@@ -22,6 +22,9 @@
 //!            (HTTP 503, TCP close)
 //!   transfer killed: 24 MB pending towards a client that does not read, which resets / leaves (HTTP/1, H2);
 //!            half of a storm's connections have such pending output (evicted with data in the buffers)
+//!   gauges   ALPN refusal after the handshake (H2-only listener) next to a silent handshake · the backend
+//!            closes an idle kept-alive connection while the client stays · the per-ip limit enabled (0 -> n)
+//!            or lowered at run time with connections open, then one more from the same address
 //!   limits   a storm above `max_connections` · the per-(cluster, ip) limit
 //!            raised / lowered / disabled at run time (`SetMaxConnectionsPerIp`)
 //!            · optional eviction on queue full
@@ -137,6 +140,11 @@ fn backend(listener: TcpListener) {
                         if s.write_all(format!("HTTP/1.1 200 OK\r\nContent-Length: {}\r\n\r\n", body.len()).as_bytes()).is_err() || s.write_all(&body).is_err() {
                             return;
                         }
+                    } else if line.contains(" /once") {
+                        // a keep-alive answer, then the backend closes the idle connection
+                        let _ = s.write_all(b"HTTP/1.1 200 OK\r\nContent-Length: 4\r\n\r\npong");
+                        std::thread::sleep(Duration::from_millis(150));
+                        return;
                     } else if line.contains(" /cut") {
                         let _ = s.write_all(b"HTTP/1.1 200 OK\r\nContent-Length: 100\r\n\r\n0123456789");
                         return;
@@ -454,6 +462,18 @@ fn h2_read_stream(s: &mut Tls, sid: u32, wait: Duration) -> Option<bool> {
     None
 }
 
+/// waits until the worker serves exactly `n` client connections
+fn wait_idle(ch: &mut Main, qn: &mut u32, n: u64) -> bool {
+    let t0 = Instant::now();
+    while t0.elapsed() < Duration::from_secs(12) {
+        if gauges(ch, qn).is_some_and(|g| g.iter().find(|(k, _)| k == "client.connections").map(|(_, v)| *v) == Some(n)) {
+            return true;
+        }
+        std::thread::sleep(Duration::from_millis(100));
+    }
+    false
+}
+
 /// every backend's state as the worker last published it (cfg(sozu_verif) hook); two metric queries
 /// first, so that at least one full event-loop iteration has run since the last outcome
 fn backends_snapshot(ch: &mut Main, n: &mut u32) -> Vec<sozu_lib::backends::VerifBackend> {
@@ -532,6 +552,7 @@ fn main() {
     let front2: SocketAddr = format!("127.0.0.1:{}", free_port()).parse().unwrap();
     let fronts: SocketAddr = format!("127.0.0.1:{}", free_port()).parse().unwrap();
     let fronts2: SocketAddr = format!("127.0.0.1:{}", free_port()).parse().unwrap();
+    let fronts3: SocketAddr = format!("127.0.0.1:{}", free_port()).parse().unwrap();
     let tcp_good2: SocketAddr = format!("127.0.0.1:{}", free_port()).parse().unwrap();
     let tcp_good: SocketAddr = format!("127.0.0.1:{}", free_port()).parse().unwrap();
     let tcp_dead: SocketAddr = format!("127.0.0.1:{}", free_port()).parse().unwrap();
@@ -601,6 +622,12 @@ fn main() {
     let fas2: SocketAddress = fronts2.into();
     let mut lbs2 = ListenerBuilder::new_https(fas2.clone());
     lbs2.with_front_timeout(Some(2)).with_request_timeout(Some(2)).with_back_timeout(Some(2)).with_connect_timeout(Some(1));
+    // an HTTP/2-only HTTPS listener: a TLS client that negotiates no ALPN completes its handshake and is
+    // then refused
+    let fas3: SocketAddress = fronts3.into();
+    let mut lbs3 = ListenerBuilder::new_https(fas3.clone());
+    lbs3.with_connect_timeout(Some(1)).with_alpn_protocols(Some(vec!["h2".to_string()]));
+    lbs3.disable_http11 = Some(true);
     let tcp_listener = |a: SocketAddr, cluster: &str| -> Vec<RequestType> {
         let sa: SocketAddress = a.into();
         let mut b = ListenerBuilder::new_tcp(sa.clone());
@@ -635,6 +662,7 @@ fn main() {
     let assets = "/repo/lib/assets";
     let cert = std::fs::read_to_string(format!("{assets}/local-certificate.pem")).unwrap_or_default();
     let key = std::fs::read_to_string(format!("{assets}/local-key.pem")).unwrap_or_default();
+    let (cert3, key3) = (cert.clone(), key.clone());
     let mut setup = vec![
         RequestType::AddHttpListener(lb.to_http(None).unwrap()),
         RequestType::ActivateListener(ActivateListener { address: fa.clone(), proxy: ListenerType::Http.into(), from_scm: false }),
@@ -676,6 +704,14 @@ fn main() {
             certificate: CertificateAndKey { certificate: cert, key, certificate_chain: vec![], versions: vec![], names: vec![] },
             expired_at: None,
         }));
+        setup.push(RequestType::AddHttpsListener(lbs3.to_tls(None).unwrap()));
+        setup.push(RequestType::ActivateListener(ActivateListener { address: fas3.clone(), proxy: ListenerType::Https.into(), from_scm: false }));
+        setup.push(RequestType::AddHttpsFrontend(front_of("good", "localhost", &fas3)));
+        setup.push(RequestType::AddCertificate(AddCertificate {
+            address: fas3.clone(),
+            certificate: CertificateAndKey { certificate: cert3, key: key3, certificate_chain: vec![], versions: vec![], names: vec![] },
+            expired_at: None,
+        }));
         setup.extend(tcp_listener(tcp_good2, "good"));
         setup.extend(tcp_listener(tcp_hang, "hang"));
         setup.extend(tcp_listener(tcp_empty, "empty"));
@@ -708,7 +744,7 @@ fn main() {
     let mut went_ok_last;
     // the tightest limit that was in force ever since some still-open connection was admitted: the
     // storm only holds connections it opened itself after the last change, so `limit` is it
-    const NKINDS: u64 = 36;
+    const NKINDS: u64 = 40;
     let mut counts = [0usize; NKINDS as usize];
     let t_start = Instant::now();
     // how many times the outcome went as scripted (e.g. the response did arrive): coverage, not an oracle
@@ -1094,6 +1130,108 @@ fn main() {
                     if rng.next() % 2 == 0 {
                         reset(c);
                     }
+                }
+            }
+            36 => {
+                // ALPN refusal after a completed handshake (H2-only listener, client without ALPN), while
+                // another client sits silently in its own handshake: the handshake gauge must still count
+                // exactly that one
+                wait_idle(&mut main_ch, &mut qn, 0);
+                let silent = tcp(&fronts3);
+                std::thread::sleep(Duration::from_millis(50));
+                let refused = match tcp(&fronts3) {
+                    Some(sock) => {
+                        let _ = sock.set_read_timeout(Some(Duration::from_secs(3)));
+                        match ClientConnection::new(tls_config(&[]), ServerName::try_from("localhost").unwrap()) {
+                            Ok(conn) => {
+                                let mut s = rustls::StreamOwned::new(conn, sock);
+                                let t0 = Instant::now();
+                                let mut hs = true;
+                                while s.conn.is_handshaking() {
+                                    if t0.elapsed() > Duration::from_secs(5) || s.conn.complete_io(&mut s.sock).is_err() {
+                                        hs = false;
+                                        break;
+                                    }
+                                }
+                                let _ = s.sock.set_read_timeout(Some(Duration::from_millis(200)));
+                                let _ = s.write_all(request("localhost", "/x", false).as_bytes());
+                                hs && wait_closed(&mut s, Duration::from_secs(5))
+                            }
+                            Err(_) => false,
+                        }
+                    }
+                    None => false,
+                };
+                if refused && silent.is_some() && wait_idle(&mut main_ch, &mut qn, 1) {
+                    went[kind] += 1;
+                    if let Some(g) = gauges(&mut main_ch, &mut qn) {
+                        let h = get(&g, "protocol.tls.handshake").unwrap_or(0);
+                        if h != 1 {
+                            println!("viol gauge-wrong one client is in the middle of its TLS handshake and protocol.tls.handshake reads {h} after another client was refused at ALPN");
+                        }
+                    }
+                }
+                drop(silent);
+            }
+            37 => {
+                // the backend closes an idle kept-alive backend connection while the client stays connected:
+                // the connection must stop being counted at once, and the client's next request is served
+                wait_idle(&mut main_ch, &mut qn, 0);
+                if let Some(mut c) = tcp(&front) {
+                    let _ = c.write_all(request("good.test", "/once", false).as_bytes());
+                    if read_response(&mut c, Duration::from_secs(5)).is_some_and(|l| l.contains(" 200")) {
+                        std::thread::sleep(Duration::from_millis(600));
+                        went[kind] += 1;
+                        let snap = backends_snapshot(&mut main_ch, &mut qn);
+                        if let Some(b) = snap.iter().find(|b| b.backend_id == "good-0") {
+                            if b.active_connections != 0 {
+                                println!("viol backend-count-not-released the backend closed its idle connection 600 ms ago, the client is still connected, and the backend still counts {} connections", b.active_connections);
+                            }
+                        }
+                        if let Some(g) = gauges(&mut main_ch, &mut qn) {
+                            for k in ["backend.connections", "backend.pool.size", "good/connections_per_backend"] {
+                                let v = get(&g, k).unwrap_or(0);
+                                if v != 0 {
+                                    println!("viol backend-count-not-released the backend closed its idle connection 600 ms ago, the client is still connected, and gauge {k} = {v}");
+                                }
+                            }
+                        }
+                        let _ = c.write_all(request("good.test", "/x", true).as_bytes());
+                        let _ = read_response(&mut c, Duration::from_secs(5));
+                    }
+                }
+            }
+            38 | 39 => {
+                // the per-(cluster, ip) limit is enabled (38: 0 -> 2) or lowered (39: 3 -> 2) at run time while
+                // two connections are open: their slots must still count, a third connection is refused
+                if maxc >= 3 {
+                    wait_idle(&mut main_ch, &mut qn, 0);
+                    let before = if kind == 38 { 0 } else { 3 };
+                    let ok = |r: Option<WorkerResponse>| r.is_some_and(|r| r.status == ResponseStatus::Ok as i32);
+                    if ok(send(&mut main_ch, &format!("T-{round}-a"), RequestType::SetMaxConnectionsPerIp(before))) {
+                        let mut held: Vec<TcpStream> = vec![];
+                        let mut served = 0;
+                        for _ in 0..2 {
+                            if let Some(mut c) = tcp(&front) {
+                                let _ = c.write_all(request("good.test", "/x", false).as_bytes());
+                                if read_response(&mut c, Duration::from_secs(3)).is_some_and(|l| l.contains(" 200")) {
+                                    served += 1;
+                                }
+                                held.push(c);
+                            }
+                        }
+                        if served == 2 && ok(send(&mut main_ch, &format!("T-{round}-b"), RequestType::SetMaxConnectionsPerIp(2))) {
+                            went[kind] += 1;
+                            if let Some(mut c) = tcp(&front) {
+                                let _ = c.write_all(request("good.test", "/x", true).as_bytes());
+                                if read_response(&mut c, Duration::from_secs(3)).is_some_and(|l| l.contains(" 200")) {
+                                    println!("viol over-ip-limit two connections from this address are open, the per-(cluster, ip) limit was just set to 2 (from {before}), and a third one was served: the open connections' slots were forgotten");
+                                }
+                            }
+                        }
+                        drop(held);
+                    }
+                    let _ = send(&mut main_ch, &format!("T-{round}-c"), RequestType::SetMaxConnectionsPerIp(limit));
                 }
             }
             21 => {
